@@ -1,10 +1,15 @@
 import importlib.util
 import os
 
-_h = os.path.join(os.path.dirname(os.path.dirname(os.path.abspath(__file__))), 'contracts_common', 'c05spec.py')
-_s = importlib.util.spec_from_file_location('c05spec', _h)
-c05 = importlib.util.module_from_spec(_s)
-_s.loader.exec_module(c05)
+import sys
+
+c05 = sys.modules.get('c05spec_shared')   # one shared instance per process (site extraction is cached in it)
+if c05 is None:
+    _h = os.path.join(os.path.dirname(os.path.dirname(os.path.abspath(__file__))), 'contracts_common', 'c05spec.py')
+    _s = importlib.util.spec_from_file_location('c05spec_shared', _h)
+    c05 = importlib.util.module_from_spec(_s)
+    sys.modules['c05spec_shared'] = c05
+    _s.loader.exec_module(c05)
 c05.ensure_header()
 
 PROPERTIES = ['C05', 'C02']
@@ -62,7 +67,7 @@ def queries(tier, prop='C05'):
                 if e in STATELESS and i != 0: continue
                 if tier == 'quick' and e in ERASE and cap >= 16 and na > 2: continue   # rotate over 16 characters with symbolic positions: thorough tier only
                 valid, reach = shape(e, cap, na, nb, OPEN, tscap)
-                if ub and not valid: continue
+                if ub and (not valid or e in REPL): continue   # replace: memory-unsafe for wrapping pos + count (C04_replace_keeps_size, listed for C02 by harness/istr_step)
                 # loops of the string algorithms run over the characters present; fills / strlen over the capacity; to_string over the digits
                 uw = (na + 4) if e in ERASE else (max(na, nb) + 4) if e in REPL else 15 if e == 'to_string' else (na + 4) if (e in EMPTYV or e in ('is_push_back', 'is_clear')) else cap + 5
                 out.append(dict(entry='q_' + e, cfg={'CAP': cap, 'NA': na, 'NB': nb, 'TSCAP': tscap, 'C05SAFE': safe}, unwind=uw,
